@@ -33,6 +33,9 @@ func VerifC01Lex() {
 	case 0:
 		e, err := Parse(src)
 		nd.Assert((e == nil) != (err == nil), "expression-or-error")
+		if err == nil {
+			_, _ = e.Evaluate(NewContext(map[string]any{"a": 1}, NewConfig())) // what parses evaluates without panicking
+		}
 	case 1:
 		_, _ = ParseStatement(AssignStatementSelector, "v = "+src)
 	case 2:
@@ -43,6 +46,28 @@ func VerifC01Lex() {
 		_, _ = ParseStatement(CycleStatementSelector, src)
 	}
 	nd.Reach("C01.lex")
+}
+
+// VerifC01Selectors: the lexer's statement-selector tokens (%assign, %loop, {%cycle, {%when — the
+// prefixes ParseStatement puts in front of a tag's arguments) can be spelled in template source too.
+// An expression containing one, followed by arbitrary bytes, is rejected or evaluates; never a panic.
+func VerifC01Selectors() {
+	kw := []string{"%assign ", "%loop ", "{%cycle ", "{%when ", "%assign", "{%when"}[nd.Choice(6)]
+	tail := []string{"x = 1", "x in y", "\"a\"", "1", "", "x"}[nd.Choice(6)]
+	extra := nd.String(nd.Choice(2))
+	for i := 0; i < len(extra); i++ {
+		nd.Assume(extra[i] < 0x80)
+	}
+	src := kw + tail + extra
+	if nd.Choice(2) == 1 {
+		src = "a " + src
+	}
+	e, err := Parse(src)
+	nd.Assert((e == nil) != (err == nil), "expression-or-error")
+	if err == nil {
+		_, _ = e.Evaluate(NewContext(map[string]any{"a": 1, "y": []any{1}}, NewConfig()))
+	}
+	nd.Reach("C01.selectors")
 }
 
 // VerifC01Digits: numeric literals of 1..20 digits (with optional sign and fraction) never panic:
